@@ -213,8 +213,8 @@ def dag_orthogonality_task(kind, kw):
 # ------------------------------------------------------------------------------------------------------------------
 # gauge invariance of the re-centring
 # ------------------------------------------------------------------------------------------------------------------
-def _joint_kw(sources):
-    return dict(features=["a", "b"] if sources else ["a"], source_dimension=sources, nb_events=1)
+def _joint_kw(sources, nb_events=1):
+    return dict(features=["a", "b"] if sources else ["a"], source_dimension=sources, nb_events=nb_events)
 
 
 def put_symbolic_event(state, n_ind, nb_events=1):
@@ -226,7 +226,7 @@ def put_symbolic_event(state, n_ind, nb_events=1):
 
 
 def gauge_task(kind, kw, n_ind=2, n_vis=2):
-    task = f"gauge[{cfg_name(kind, kw)},n={n_ind},v={n_vis}]"
+    task = f"gauge[{cfg_name(kind, kw)}{',events=%d' % kw['nb_events'] if kw.get('nb_events', 1) > 1 else ''},n={n_ind},v={n_vis}]"
 
     def body():
         m = build_model(kind, **kw)
@@ -256,10 +256,12 @@ def gauge_task(kind, kw, n_ind=2, n_vis=2):
             basis_calls.clear()
             s, ins = populate(m, n_ind, n_vis)
             if kind == "joint":
-                ins.update(put_symbolic_event(s, n_ind))
+                n_ev = int(kw.get("nb_events", 1))
+                ins.update(put_symbolic_event(s, n_ind, n_ev))
                 # events strictly after the reference time: the regular branch of the Weibull likelihood
                 for i in range(n_ind):
-                    T.assume(ins["event_time"].sym[i, 0] - ins["tau"].sym[i, 0] > 0)
+                    for e in range(n_ev):
+                        T.assume(ins["event_time"].sym[i, e] - ins["tau"].sym[i, 0] > 0)
             before = {k: s[k] for k in watch}
             xi_before = s["xi"]
             type(m).compute_sufficient_statistics(s)
@@ -355,6 +357,7 @@ def tasks(tier, seed=0):
     ts.append(("gauge_task", dict(kind="logistic", kw=dict(features=["a", "b"], source_dimension=1))))
     ts.append(("gauge_task", dict(kind="linear", kw=dict(features=["a", "b"], source_dimension=0))))
     ts.append(("gauge_task", dict(kind="joint", kw=_joint_kw(0))))
+    ts.append(("gauge_task", dict(kind="joint", kw=_joint_kw(0, nb_events=2))))  # competing events: every event's scale must follow the gauge
     if tier == "thorough":
         for sc in range(4):
             ts.append(("basis_task", dict(dim=4, metric_kind="1d", strip_col=sc)))
@@ -364,5 +367,7 @@ def tasks(tier, seed=0):
         ts.append(("dag_orthogonality_task", dict(kind="shared_speed_logistic", kw=dict(features=["a", "b"], source_dimension=1))))
         ts.append(("gauge_task", dict(kind="linear", kw=dict(features=["a", "b"], source_dimension=1))))
         ts.append(("gauge_task", dict(kind="joint", kw=_joint_kw(1))))
+        ts.append(("gauge_task", dict(kind="joint", kw=_joint_kw(1, nb_events=2))))
+        ts.append(("gauge_task", dict(kind="joint", kw=_joint_kw(0, nb_events=3), n_ind=2, n_vis=1)))
         ts.append(("gauge_task", dict(kind="logistic", kw=dict(features=["a", "b", "c"], source_dimension=1), n_ind=2, n_vis=1)))
     return ts
